@@ -59,9 +59,10 @@ def source_tree(draw):
     }
 
 
-KEYS = ["src.len", "src.cnt", "src.flag", "src.cmp", "src.name", "src.arr", "src.sub.deep", "src.ref", "src.late", "src.mat"]
+KEYS = ["src.len", "src.cnt", "src.flag", "src.cmp", "src.name", "src.arr", "src.sub.deep", "src.ref", "src.late", "src.mat", "src.words"]
 TYPE = {"src.len": "float", "src.cnt": "int", "src.flag": "bool", "src.cmp": "bool", "src.name": "str", "src.arr": "float[3]",
-        "src.sub.deep": "int", "src.ref": "float", "src.late": "float", "src.mat": "float[2,3]"}
+        "src.sub.deep": "int", "src.ref": "float", "src.late": "float", "src.mat": "float[2,3]", "src.words": "str[3]"}
+WORDLIST = ["alpha", "b c", "gamma"]
 MAT = [[1.0, 2.0, 3.0], [4.0, 5.0, 6.0]]
 
 
@@ -90,6 +91,8 @@ def operation(draw, where):
         sl = None
         if key == "src.arr":
             sl = draw(st.sampled_from([None, "1", "0", "1:", ":2", "0:2"]))
+        elif key == "src.words":
+            sl = draw(st.sampled_from([None, "1", "0", "1:", "0:2"]))      # an element of a string array is a string
         elif key == "src.mat":
             sl = draw(st.sampled_from([None, ":,1", "1,0:2", "0,2", "1", "0:1,1:"]))
         elif key == "src.name":
@@ -146,6 +149,7 @@ def source_text(t):
          "  ref float = {?src.len}",
          f"  late float {t.get('late', [40.0, 'cm'])[1]}",
          "  mat float[2,3] = [[1.0,2.0,3.0],[4.0,5.0,6.0]]",
+         "  words str[3] = '[\"alpha\",\"b c\",\"gamma\"]'",
          "  sub",
          f"    deep int = {t['deep']}"]
     if t["deep_con"] == "constant":
@@ -193,6 +197,7 @@ class Model:
         late = t.get("late", [40.0, "cm"])
         self.add("src.late", "float", late[1], late[0])
         self.add("src.mat", "float[2,3]", None, [list(r) for r in MAT])
+        self.add("src.words", "str[3]", None, list(WORDLIST))
         self.add("src.sub.deep", "int", None, t["deep"], t["deep_con"])
         self.add("src.subx.other", "int", None, 5)
         self.add("srcx.top", "int", None, 6)
@@ -389,6 +394,8 @@ def check(case):
 def _same_list(got, exp):
     if isinstance(exp, list):
         return isinstance(got, list) and len(got) == len(exp) and all(_same_list(a, b) for a, b in zip(got, exp))
+    if isinstance(exp, str):
+        return isinstance(got, str) and got == exp
     return not isinstance(got, (list, bool, str)) and got is not None and close(got, exp, 1e-9, 1e-300)
 
 
